@@ -15,6 +15,12 @@ PIECES = {
     "Outer": "class Outer:\n    class Inner:\n        pass\n",
     "DC": "from dataclasses import dataclass, field\n@dataclass\nclass DC:\n    x: object\n    y: int = 0\n    z: list = field(default_factory=list)\n",
     "DCH": "from dataclasses import dataclass, field\n@dataclass\nclass DCH:\n    x: object\n    h: int = field(default=3, repr=False, compare=False)\n",
+    # class hierarchies: a value of a subclass is not a value of the base class (constructor name must change)
+    "DCS": "@dataclass\nclass DCS(DC):\n    pass\n",
+    "DCX": "@dataclass\nclass DCX(DC):\n    w: int = 0\n",
+    "ATS": "@attrs.define\nclass ATS(AT):\n    pass\n",
+    "PMS": "class PMS(PM):\n    pass\n",
+    "NTS": "class NTS(NT):\n    pass\n",
     "AT": "import attrs\n@attrs.define\nclass AT:\n    a: object\n    b: int = 5\n    c: list = attrs.Factory(list)\n",
     "PM": "import pydantic\nclass PM(pydantic.BaseModel):\n    a: object\n    b: int = 7\n",
     "NT": "from collections import namedtuple\nNT = namedtuple('NT', 'a,b')\n",
@@ -35,10 +41,15 @@ PIECES = {
 _NAME_RE = re.compile(r"\b(" + "|".join(sorted(PIECES, key=len, reverse=True)) + r")\b")
 
 
+DEPS = {"DCS": "DC", "DCX": "DC", "ATS": "AT", "PMS": "PM", "NTS": "NT"}
+
+
 def prologue_for(exprs, extra=()):
     need = []
     for e in list(exprs) + list(extra):
         for m in _NAME_RE.findall(e):
+            if m in DEPS and DEPS[m] not in need:
+                need.append(DEPS[m])
             if m not in need:
                 need.append(m)
     seen_lines = []
